@@ -185,7 +185,8 @@ def c11_check(case):
 MATHD = [('$', '$', TexMathModeEnv), ('$$', '$$', TexDisplayMathModeEnv), ('\\(', '\\)', TexMathEnv),
          ('\\[', '\\]', TexDisplayMathEnv)]
 MBODY = ['x', 'a+b', '\\alpha', '\\frac{a}{b}', '\\$', '(a', 'a)', '[a', 'a]', ')(', '\\left[x\\right)', '\\big(y', 'a \\in [0,1)',
-         '\\cup [', 'x\\cap(', '{a}', '\\infty]', '\\notin (', 'a_{[}']
+         '\\cup [', 'x\\cap(', '{a}', '\\infty]', '\\notin (', 'a_{[}', 'A_{x\\in[0,1)}', 'y^{\\cup[a}', 'z_{\\cap[}',
+         'u\\notin[a', '\\infty[']
 M_CTX = ['%s', 'pre %s post', '\\begin{a}%s\\end{a}', '{%s}', '\\x{%s}', '\\begin{itemize}\\item %s\\end{itemize}']
 MENVS = ['equation', 'align*', 'gather', 'math', 'displaymath', 'eqnarray*', 'split']
 
@@ -199,6 +200,11 @@ def c12_check(case):
     else:
         o, c, cls = kind[1]
         region = o + body + c
+    if second and kind[0] == 'delim' and kind[1][0] == second[:len(kind[1][0])] and not second.startswith(' '):
+        return out          # adjacent regions of the SAME kind are ambiguous ($a$$b$), the property speaks of different kinds
+    if second in ('$z$', '$$v$$', '$$$$') and kind[0] == 'delim' and kind[1][0] in ('$', '$$') and \
+            (kind[1][0] + second).count('$') % 2 == 1 and kind[1][0] == '$':
+        return out
     s = ctx % (region + (second or ''))
     if kind[0] == 'delim' and kind[1][0] in ('$', '$$') and (body.endswith('$') or '$$' in s.replace(region, '', 1) and False):
         return out
@@ -238,12 +244,16 @@ def cases_for(prop, tier, rnd):
     if prop == 'C10':
         L = 2 if tier == 'quick' else 3
         pl = [''.join(p) for n in range(0, L + 1) for p in itertools.product(PAYLOAD, repeat=n)]
-        return [(ctx, p, nb) for ctx in C10_CTX for p in pl for nb in range(0, 5 if tier != 'quick' else 3)]
+        base = [(ctx, p, nb) for ctx in C10_CTX for p in pl for nb in range(0, 5 if tier != 'quick' else 4)]
+        # other line ends: a lone CR and CRLF end a comment as well
+        alt = [(ctx.replace('\n', le), p, nb) for ctx in C10_CTX for le in ('\r', '\r\n') for p in pl[:40] for nb in (0, 1, 2)]
+        return base + alt
     if prop == 'C11':
         return [(n, b, c) for n in VNAMES for b in VBODY for c in V_CTX]
     if prop == 'C12':
         kinds = [('delim', d) for d in MATHD] + [('env', n) for n in MENVS]
-        seconds = [None, ' $z$', '\\[w\\]'] if tier == 'quick' else [None, ' $z$', '\\[w\\]', '$$v$$', '\\(u\\)']
+        seconds = [None, ' $z$', '\\[w\\]', '$z$', '$$v$$'] if tier == 'quick' else \
+            [None, ' $z$', '\\[w\\]', '$z$', '$$v$$', '\\(u\\)', '$$$$']
         return [(k, b, c, s2) for k in kinds for b in MBODY for c in M_CTX for s2 in seconds]
     raise SystemExit('unknown property')
 
